@@ -382,20 +382,44 @@ impl IsoDate {
     ) -> TemporalResult<Self> {
         // 1. Assert: year, month, day, years, months, weeks, and days are integers.
         // 2. Assert: overflow is either "constrain" or "reject".
+        // NOTE: The duration fields are user controlled; any sum that leaves the `i32` range (or a
+        // day count no representable date can absorb) lies far outside the supported range.
+        const OUT_OF_RANGE: &str = "Date duration exceeds the supported range.";
         // 3. Let intermediate be ! BalanceISOYearMonth(year + years, month + months).
-        let intermediate = balance_iso_year_month(
-            self.year + duration.years.as_date_value()?,
-            i32::from(self.month) + duration.months.as_date_value()?,
-        );
+        let years = self
+            .year
+            .checked_add(duration.years.as_date_value()?)
+            .ok_or(TemporalError::range().with_message(OUT_OF_RANGE))?;
+        let months = i32::from(self.month)
+            .checked_add(duration.months.as_date_value()?)
+            .ok_or(TemporalError::range().with_message(OUT_OF_RANGE))?;
+        let Some(month_index) = months.checked_sub(1) else {
+            return Err(TemporalError::range().with_message(OUT_OF_RANGE));
+        };
+        if years.checked_add(month_index.div_euclid(12)).is_none() {
+            return Err(TemporalError::range().with_message(OUT_OF_RANGE));
+        }
+        let intermediate = balance_iso_year_month(years, months);
 
         // 4. Let intermediate be ? RegulateISODate(intermediate.[[Year]], intermediate.[[Month]], day, overflow).
         let intermediate =
             Self::new_with_overflow(intermediate.0, intermediate.1, self.day, overflow)?;
 
         // 5. Set days to days + 7 × weeks.
-        let additional_days =
-            duration.days.as_date_value()? + (duration.weeks.as_date_value()? * 7);
+        let week_days = duration
+            .weeks
+            .as_date_value()?
+            .checked_mul(7)
+            .ok_or(TemporalError::range().with_message(OUT_OF_RANGE))?;
+        let additional_days = week_days
+            .checked_add(duration.days.as_date_value()?)
+            .ok_or(TemporalError::range().with_message(OUT_OF_RANGE))?;
         // 6. Let d be intermediate.[[Day]] + days.
+        // The intermediate date is within limits, so no in-range result is further away than
+        // twice the maximum day count.
+        if additional_days.unsigned_abs() > 2 * MAX_EPOCH_DAYS.unsigned_abs() {
+            return Err(TemporalError::range().with_message(OUT_OF_RANGE));
+        }
         let intermediate_days = i32::from(intermediate.day) + additional_days;
 
         // 7. Return BalanceISODate(intermediate.[[Year]], intermediate.[[Month]], d).
